@@ -327,7 +327,8 @@ fn main() {
             "ops {}\nsrc   {}\nimpl  {}\nmodel {}\nspec  {}\nimport_error {:?}",
             o.ops_txt, o.src, o.real, m, s, o.import_err
         );
-        let spec_ok = s == "ok";
+        // an export that cannot be imported, a failing export, a panic: violations by themselves
+        let spec_ok = s == "ok" && o.import_err.is_none() && !o.src.is_empty() && o.dst.is_some();
         if !spec_ok {
             let sig = signature(o, s);
             rep.count(&format!("spec_violation:{}", sig));
